@@ -20,7 +20,7 @@ vlib.standard_check({
     # harness args after the seed: ncases ncycles mode   (mode bit1: WaitStable + reads right after power-on; bit2: time steps that are
     # flushed twice (WaitFor(0) after WaitStable, runs ending exactly on a clock edge); bit0: sub-picosecond WaitFor delays)
     "streams": {"quick": [[60, 120, 0], [25, 40, 2], [25, 40, 4]],
-                "thorough": [[800, 300, 0], [80, 3000, 0], [400, 60, 2], [400, 60, 4]]},
+                "thorough": [[1500, 300, 0], [150, 3000, 0], [800, 60, 2], [800, 60, 4]]},
     "search": [[150, 100, 0], [60, 60, 6]],
     "signature": signature,
     "eval_key": "ops",
@@ -37,7 +37,8 @@ vlib.standard_check({
                      "the VCD reader `decode` as the meaning of a VCD file; ostream << size_t modelled by natToDec; boost::rational by Nat / Rat"],
     "level_text": "Lean models of WaveformRecorder/VCDSink/VCDWriter (encode) with a VCD reader (decode) and of FileBasedTestbenchRecorder; proved: the "
                   "identifier generator never repeats, decode(encode trace) = value at the last commit <= t for all traces/widths/selections, ADV never "
-                  "drifts, groups stay inside their clock interval in recording order with CHECKs after the SETs they observed; both models are compared "
+                  "drifts, groups stay inside their flush interval in recording order with CHECKs after the SETs they observed, nothing recorded "
+                  "after the clock edges of a time is written at that time; both models are compared "
                   "byte for byte with the real files and the real test vectors are replayed on every run.",
     "assumptions": ["debug/warning/assert message strings in the VCD, GTKWave/Surfer project files and the VHDL/Verilog test bench text are not modelled",
                     "uint64 overflow of boost::rational<uint64_t> time arithmetic is outside the model (Nat/Rat)",
